@@ -1,2 +1,119 @@
+"""C19 — expansion is a deterministic pure function of the derive input. Engine: sessim (DESIGN.md §2)."""
+import json, os, shutil, time
+from common import *
+
+CRATE = os.path.join(VERIF, "sessim")
+BIN = os.path.join(BUILD, "sessim", "release", "sessim")
+SHIM = os.path.join(BUILD, "libverif_env.so")
+
+
+def build():
+    os.makedirs(BUILD, exist_ok=True)
+    rc, out = sh(["gcc", "-O2", "-shared", "-fPIC", "-o", SHIM + ".tmp", os.path.join(CRATE, "shim", "entropy.c"), "-lpthread", "-ldl"])
+    if rc != 0:
+        raise Harness("cannot build the environment shim:\n" + out)
+    os.replace(SHIM + ".tmp", SHIM)
+    rc, out = sh(["python3", os.path.join(CRATE, "gen_shadow.py")])
+    if rc != 0:
+        raise Harness("gen_shadow.py failed:\n" + out)
+    shutil.copyfile("/repo/Cargo.lock", os.path.join(CRATE, "Cargo.lock"))
+    rc, out = sh(["cargo", "build", "--release", "--offline"], cwd=CRATE)
+    if rc != 0:
+        raise Harness("the shadow crate does not build from /repo/impl/src:\n" + out[-6000:])
+
+
+def drive(seed, sessions, start, selfcheck_every, tag):
+    out = os.path.join(BUILD, "sessim-%s.json" % tag)
+    if os.path.exists(out):
+        os.remove(out)
+    rc, o = sh([BIN, "drive", "--seed", str(seed), "--sessions", str(sessions), "--start", str(start), "--jobs", "16",
+                "--selfcheck-every", str(selfcheck_every), "--repo", "/repo", "--shim", SHIM, "--out", out, "--replay-dir", REPLAYS])
+    if not os.path.exists(out):
+        raise Harness("sessim drive crashed (rc=%s):\n%s" % (rc, o[-4000:]))
+    s = json.load(open(out))
+    s["_rc"] = rc
+    return s
+
+
 def main(tier, seed, replay):
-    raise SystemExit(2)
+    t0 = time.time()
+    try:
+        if replay:
+            build()
+            rc, out = sh([BIN, "replay", replay, "--shim", SHIM])
+            print(out, end="")
+            return rc
+        return do_check(tier, seed, t0)
+    except Harness as e:
+        log("HARNESS ERROR (exit 2): %s" % e)
+        return 2
+
+
+REQUIRED = [("faults", "diagnostic_requests"), ("faults", "expander_panics_caught"), ("faults", "worker_crash_and_replace"),
+            ("faults", "process_restarts"), ("faults", "clock_skewed_processes"), ("faults", "pid_faked_processes"),
+            ("multi_worker_processes",), ("distinct_entropy_seeds",), ("distinct_layouts",)]
+
+
+def do_check(tier, seed, t0):
+    os.makedirs(REPLAYS, exist_ok=True)
+    build()
+    viol_lines = []
+    layers = {}
+
+    # ---- layer A1: native session simulator
+    n = 96 if tier == "quick" else 6000
+    a = drive(seed, n, 0, 1 if tier == "quick" else 8, "a1")
+    if a["error_count"]:
+        raise Harness("sessim harness errors: %s" % a["errors"])
+    if a["nondeterministic_sessions"]:
+        raise Harness("simulator is not deterministic: sessions %s gave different logs when re-run with the same plan" % a["nondeterministic_sessions"][:5])
+    for path in REQUIRED:
+        d = a
+        for p in path:
+            d = d[p]
+        if not d:
+            raise Harness("reach probe %s is zero" % "/".join(path))
+    for v in a["violations"]:
+        rc, out = sh([BIN, "replay", v["replay"], "--shim", SHIM])
+        if rc != 1:
+            raise Harness("violation %s did not reproduce on replay (rc=%d):\n%s" % (v["replay"], rc, out[-2000:]))
+        viol_lines.append("VIOLATION property=C19 replay=%s" % v["replay"])
+        log("  %s: %s" % (v["replay"], v["what"]))
+    layers["A1_native_session"] = {k: a[k] for k in a if k not in ("samples", "violations", "errors", "_rc")}
+
+    wall = time.time() - t0
+    coverage = {
+        "evaluations": a["requests"],
+        "distinct_nontrivial": a["distinct_nontrivial_contexts"],
+        "rule": "one evaluation = one expansion request (derive, item) served by the real expanders of /repo/impl/src inside a simulated compiler session "
+                "(1..4 worker threads released one at a time by the simulator; seeded request order, noise requests, repeats; seeded entropy behind an interposed getrandom, "
+                "ASLR off + seeded stack/heap displacement, simulated clock and pid, junk environment; faults: diagnostic requests, expander panics caught, worker killed by a panic "
+                "and replaced, process restart), its text compared byte for byte with the observation of a pristine one-request process (refinement to a pure function). "
+                "distinct_nontrivial counts distinct (key, history-prefix digest, worker, worker generation, layout, entropy seed) contexts whose key was observed in at least two "
+                "different contexts in this run, so that the comparison has content",
+        "samples": a["samples"],
+        "layers": layers,
+        "simulated_sessions": a["sessions"],
+        "simulated_processes": a["processes"] + a["reference_processes"] + a["selfchecked_processes"],
+        "sessions_per_hour": int(a["sessions"] / max(a["run_s"], 1e-9) * 3600),
+        "seeds": {"VERIF_SEED": seed, "sessions_derive_from": "Rng(VERIF_SEED, session index)", "distinct_entropy_seeds": a["distinct_entropy_seeds"]},
+        "simulated_time": "the expanders read no clock; the simulated clock (seeded base, +1us per call) is offered to them as an environment dimension only",
+        "fault_kinds_fired": a["faults"],
+        "determinism_selfcheck": "%d session processes re-run in a fresh process with the identical plan; observation logs byte-identical" % a["selfchecked_processes"],
+        "components": {
+            "real": ["every expander module of /repo/impl/src (compiled in-process through a generated #[path] shadow crate, rebuilt from the working tree)", "syn / quote / proc-macro2"],
+            "stubbed": ["rustc's proc-macro bridge (proc-macro2 fallback token streams)", "the `create_derive!` entry points and Output::process (re-created from lib.rs by gen_shadow.py)"],
+            "simulated": ["OS entropy (getrandom)", "address-space layout", "clock, pid, environment block", "worker schedule", "expansion history", "faults"],
+        },
+        "exhaustive": False,
+    }
+    assumptions = [
+        "seeded sampling of sessions, not enumeration",
+        "toolchain held fixed: stability of zero-keyed SipHash across Rust releases is outside the statement",
+        "only the class of an expander panic is observed (the statement is about token sequences)",
+    ]
+    write_evidence("C19", tier, seed, "exploration", coverage, wall, len(viol_lines), assumptions)
+    for l in viol_lines:
+        print(l)
+    log("C19 %s: %d sessions, %d requests, %d contexts, %.1fs" % (tier, a["sessions"], a["requests"], a["distinct_contexts"], wall))
+    return 1 if viol_lines else 0
